@@ -7,10 +7,18 @@ correspond : (a) whole programs of the documented core language from a type-dire
              engine (one fresh Engine per program) vs the reference semantics S (Base/Eval.lean, a CEK
              machine): script output, top-level values, error-or-success outcome;
              (b) fragment programs, emitted both as lowered IR and as Steel source: `evalIR` vs the model VM
-             running the generated code vs the real engine.
+             running the generated code vs the real engine;
+             (c) real bytecode replay: the listing of every unit of these programs, read into `C01C.Instr`, run by
+             `C01C.run`, vs the real VM (units outside the modelled set counted per reason);
+             (d) programs inside the core language (gen/core01.py: source + lowered Core term): `compileTop e` vs the
+             real listing (normalised), and the five-way run evalC / model compiler+VM / model VM on the real listing
+             / real engine / S;
+             (e) tail-only loop shapes: `C09.tailOnlyB` on the real listing (accepted => covered by
+             `C09.core_loop_constant_space`);  translate: translate/c01_opcodes.py -> C01/GenOpcodes.lean (PropsTie.lean).
 oracle     : S (and `evalIR` for the fragment).  A real≠S difference is a violation unless the program is in
              the class of an open finding.
 """
+import json
 import os
 import random
 import re
@@ -21,14 +29,15 @@ from . import common as C
 sys.path.insert(0, C.VERIF)
 from gen.progs import gen_program      # noqa: E402
 from gen.frag import gen_frag_program  # noqa: E402
+from gen.core01 import gen_core_program  # noqa: E402
 
 PID = "C01"
 META = {
     "ready": True,
     "category": "proof",
-    "technique": "Lean 4 compiler-correctness theorem (code generator + stack VM refine the reference semantics of the lowered core) + differential execution of generated programs: real engine vs executable reference semantics",
-    "level_text": "Proved for every program of the fragment (SteelVerif/C01/Props.lean): compile_correct (if the reference semantics of the lowered core gives a value, the VM running the generated code halts with the same value; any nesting, recursion depth and frame contents), read_after_write, dead_branch_irrelevant / dead_branch_vm (code that is not executed cannot influence the result), call_arity_exact and call_args_exact (a call succeeds only with exactly the written operands, in order), eval_preserves_height. The fragment model is my transcription of the generic op codes, not the real analysis.rs / code_gen.rs / vm.rs; the tie to the real pipeline is differential: whole programs of the documented core language (closures, mutation of captured variables, shadowing, internal defines, named let, rest arguments, higher-order library procedures, handled and dead errors, output) run on the real engine and on the executable reference semantics S, and fragment programs run on evalIR, on the model VM and on the real engine.",
-    "level_note": "Trusted: Lean kernel, harness/driver/comparison, the reference evaluator S as the reading of Scheme semantics (deviation table in Base/Eval.lean), generator coverage. Not modelled: the real analysis passes, the ~85 specialised op codes, const-evaluation, the JIT (all covered only by the differential run).",
+    "technique": "Lean 4 compiler-correctness theorems (code generator + stack VM with the real op codes refine the reference semantics of the lowered core with first-class closures) + a checked tie of that model to /repo: real bytecode replay on the model VM, compiler output comparison, five-way execution, op-code tables regenerated from the sources + differential execution of generated whole programs: real engine vs executable reference semantics",
+    "level_text": "Proved for every program of the lowered core with closures (SteelVerif/C01/PropsCore.lean, model C01/Core.lean: real op codes, one shared operand stack, real frame discipline): compile_correct_core / compile_correct_program (the VM running compileTop e refines evalC), closure_captures_by_reference, call_args_exact_core, tail_call_constant_frames, dead_code_never_runs_core, call_error_reported and the others listed in Audit.lean; and for the first-order fragment (Props.lean: compile_correct, read_after_write, dead_branch_*, call_arity_exact, call_args_exact). TIE of the core model to /repo, checked on every run: (1) REAL BYTECODE REPLAY - for every program the harness prints the listing of every compilation unit the engine is about to run (Engine::debug_build_strings of a clone of the very RawProgramWithSymbols that is then run; provisional global slots of the clone mapped to the slots the engine really bound via the symbol table rows); C01BC.toInstr (BCParse.lean) reads it into List C01C.Instr by the table in Core.lean's header and C01C.run executes it; value / error kind of every unit must equal the real VM's. (2) COMPILER OUTPUT COMPARISON - gen/core01.py emits programs inside the core (closures over assigned variables, let, if, begin, set!, computed / global / self-tail calls, rest arguments, boxes) as Steel source AND as lowered Core terms (scope resolution by the generator, unverified); compileTop e is compared with the real listing after the documented normalisation (READLOCALk, function ids, constant-pool indices, global slot renaming); share identical + histogram of difference classes in the evidence (a difference is not a violation). (3) FIVE-WAY RUN on these programs: evalC, C01C.run (compileTop e), C01C.run on the real listing, the real engine, and S (Base/Eval on the source) must agree unit by unit; the differing pair is printed. (4) translate/c01_opcodes.py regenerates GenOpcodes.lean (enum OpCode, arms of the dispatch loop of vm.rs); PropsTie.lean decides: every op code the reader maps to Instr exists in the enum, every one the model executes has a dispatch arm, the four word-only op codes have none (and step yields bad on them), the reader accepts no other name. (5) C09.tailOnlyB (proved-sound static check) is evaluated on the real listings of tail-only loop shapes: accepted listings are covered by C09.core_loop_constant_space. Whole programs of the documented core language (gen/progs.py: closures, mutation, internal defines, named let, rest arguments, library procedures, handled and dead errors, output) run on the real engine (top level and as a module) and on S as before; fragment programs on evalIR / model VM / real.",
+    "level_note": "Trusted: Lean kernel, harness/driver/comparison, the reference evaluator S as the reading of Scheme semantics (deviation table in Base/Eval.lean), generator coverage, the listing reader C01BC.toInstr and the slot remapping (inspectable, not proved), the generator's lowering source -> Core (independent scope resolution; validated only by the listing comparison and the five-way run). Share inside the model: all units of the core-generator programs and of the tail-only shapes; of the gen/progs whole programs every op code that occurs is modelled (see tie_core_model_to_repo.opcodes_seen_not_modelled) but almost every program calls built-ins the core VM does not have (lists, vectors, output, handlers): those units are counted per reason, not replayed. Not modelled: analysis.rs / the rewriting passes (inlining, lambda lifting, constant propagation show up as listing difference classes), ~55 specialised op codes that did not occur, the JIT (differential run only; differences that vanish with STEEL_JIT=false are K01j). compile_correct_core_errors and the statement for all error kinds: see PropsCore.lean.",
 }
 
 SEP = "\n;;;===\n"
@@ -170,10 +179,344 @@ def jit_only(prog, spec_rec, module):
     return same(r, spec_rec)
 
 
+# ---------------------------------------------------------------------------------------------------------------
+# The tie of the core model (C01/Core.lean) to /repo: real bytecode replay, compiler output comparison, five-way run
+
+USEP = "\n;;;---\n"
+# = C01BC.modelledOpNames (lean/SteelVerif/C01/BCParse.lean); only used to label the evidence
+MODELLED_OPS = set("""PUSHCONST LOADINT0 LOADINT1 LOADINT2 TRUE FALSE VOID PUSH READLOCAL READLOCAL0 READLOCAL1 READLOCAL2
+READLOCAL3 MOVEREADLOCAL MOVEREADLOCAL0 MOVEREADLOCAL1 MOVEREADLOCAL2 MOVEREADLOCAL3 READCAPTURED SETLOCAL IF JMP POPJMP
+NEWSCLOSURE PUREFUNC PASS NDEFS COPYCAPTURESTACK COPYCAPTURECLOSURE ECLOSURE NEWBOX UNBOX SETBOX FUNC TAILCALL TCOJMP
+CALLGLOBAL CALLGLOBALTAIL POPPURE POPSINGLE BEGINSCOPE LetVar LETENDSCOPE SDEF EDEF BIND SET""".split())
+ERRMAP = {"ArityMismatch": "arity", "TypeMismatch": "type", "FreeIdentifier": "free"}
+
+
+def canon_val(v):
+    v = v.strip()
+    if v.startswith("'#&") or v.startswith("#<box"):
+        return "#<box>"                   # a box that leaked as a value (K01d / K01f): Display shows its contents
+    if v.startswith("#<") and v != "#<void>":
+        return "#<procedure>"
+    return v
+
+
+def canon_real(kind, rest):
+    """Outcome of the real engine in the vocabulary of the model VM."""
+    if kind == "ok":
+        return ("ok", [canon_val(v) for v in rest.split("\x1f") if v not in ("", "#<void>")])
+    if kind == "err":
+        k = rest.split(" | ")[0].strip()
+        if k == "BadSyntax" and "not a procedure" in rest:
+            return ("err", "notproc")
+        return ("err", ERRMAP.get(k, k))
+    return (kind, rest)
+
+
+def canon_model(text):
+    text = text.strip()
+    if text.startswith("ok"):
+        return ("ok", [canon_val(v) for v in text[3:].split("\x1f") if v not in ("", "#<void>")])
+    if text.startswith("err "):
+        return ("err", text[4:].strip())
+    if text.startswith("timeout"):
+        return ("timeout", "")
+    return ("-", text[1:].strip())
+
+
+def parse_bc_real(chunk):
+    """One program of `c01 --bc` output -> dict(units=[dict(listing=[lines], res=(kind, rest), compiled=bool)], final)."""
+    units, cur, final, mode = [], None, None, None
+    for line in chunk.split("\n"):
+        if line.startswith("\x1eU"):
+            cur = {"listing": [], "res": None, "out": []}
+            units.append(cur)
+            mode = "L"
+        elif line.startswith("\x1eX"):
+            mode = "O"
+        elif line.startswith("\x1eG"):
+            mode = None
+        elif line.startswith("\x1eR") and cur is not None:
+            parts = line[3:].split(" ", 1)
+            cur["res"] = (parts[0], parts[1] if len(parts) > 1 else "")
+        elif line.startswith("\x1eV"):
+            final = ("ok", line[3:])
+        elif line.startswith("\x1eE"):
+            final = ("err", line[3:])
+        elif line.startswith("\x1eP"):
+            final = ("panic", line[3:])
+        elif line.startswith("\x1eK"):
+            pass
+        elif cur is not None and mode == "L":
+            cur["listing"].append(line)
+        elif cur is not None and mode == "O":
+            cur["out"].append(line)
+    return {"units": units, "final": final}
+
+
+def run_real_bc(progs, env=None, timeout=300):
+    """`c01 --bc` on programs (text with ;;;--- between units); returns the raw output chunk per program (None = the
+    child died in this program)."""
+    n = len(progs)
+    results = [None] * n
+
+    def run_chunk(idxs):
+        todo = list(idxs)
+        while todo:
+            text = SEP.join(progs[i] for i in todo) + "\n"
+            rc, out, err = C.run_bin([C.bin_path("c01"), "--bc"], text, timeout=timeout, env=env)
+            chunks = out.split("\x1eB\n")[1:]
+            k = 0
+            for k, i in enumerate(todo):
+                if k < len(chunks) and re.search(r"^\x1e[VEP]", chunks[k], re.M):
+                    results[i] = chunks[k]
+                else:
+                    break
+            else:
+                return
+            results[todo[k]] = None
+            todo = todo[k + 1:]
+
+    per = max(1, min(100, (n + C.NCPU - 1) // C.NCPU))
+    chunks = [list(range(i, min(i + per, n))) for i in range(0, n, per)]
+    C.pool_map(run_chunk, [c for c in chunks if c])
+    return results
+
+
+def run_model_bc(real_chunks, cores=None, timeout=900):
+    """`c01driver bc` on the harness output (with the generator's Core terms inserted); per program a list of units,
+    each a dict tag -> text (L, RV, XV, SE, MV, CMP, OPS)."""
+    n = len(real_chunks)
+    results = [None] * n
+
+    def feed(i):
+        ch = real_chunks[i]
+        if ch is None:
+            return "\x1eB\n"
+        if cores is None or cores[i] is None:
+            return "\x1eB\n" + ch
+        out, u = [], 0
+        for line in ch.split("\n"):
+            out.append(line)
+            if line.startswith("\x1eU"):
+                if u < len(cores[i]):
+                    out += ["\x1eC " + c for c in cores[i][u]]
+                u += 1
+        return "\x1eB\n" + "\n".join(out)
+
+    def run_chunk(idxs):
+        text = "\n".join(feed(i) for i in idxs) + "\n"
+        rc, out, err = C.run_bin([C.driver_path("c01driver"), "bc"], text, timeout=timeout)
+        chunks = out.split("\x1eB\n")[1:]
+        for k, i in enumerate(idxs):
+            if k >= len(chunks):
+                break
+            units = []
+            for u in chunks[k].split("\x1eU\n")[1:]:
+                d = {}
+                for line in u.split("\n"):
+                    tag, _, rest = line.partition(" ")
+                    if tag:
+                        d[tag] = rest
+                units.append(d)
+            results[i] = units
+
+    per = max(1, (n + C.NCPU - 1) // C.NCPU)
+    C.pool_map(run_chunk, [list(range(i, min(i + per, n))) for i in range(0, n, per)])
+    return results
+
+
+def tail_only_family(rng):
+    """Source programs of the core language in which every call of a non-primitive inside a procedure body is in tail
+    position (loop shapes of C09 without the probe).  (name, program text)."""
+    n = rng.randint(20, 60)
+    k1, k2 = rng.randint(1, 3), rng.randint(0, 5)
+    out = []
+    out.append(("self", "(define (loop i acc) (if (= i 0) acc (loop (- i %d) (+ acc %d))))%s(loop %d 0)" % (1, k2, USEP, n)))
+    for k in (2, 3, 5):
+        fs = "\n".join("(define (f%d i acc) (if (<= i 0) acc (f%d (- i %d) (+ acc %d))))" % (j, (j + 1) % k, k1, j + k2)
+                       for j in range(k))
+        out.append(("mutual%d" % k, fs + USEP + "(f0 %d 0)" % n))
+    out.append(("param", "(define (loop f i acc) (if (= i 0) acc (f f (- i 1) (+ acc %d))))%s(loop loop %d 0)" % (k2, USEP, n)))
+    out.append(("rest", "(define (loop i . rest) (if (<= i 0) rest (loop (- i 1) (+ i %d) i)))%s(loop %d)" % (k2, USEP, n)))
+    out.append(("let-temps", "(define (loop i acc) (if (= i 0) acc (let ((j (- i 1)) (a (+ acc %d))) "
+                             "(let ((b (+ a 0)) (c (+ j 0))) (loop c b)))))%s(loop %d 0)" % (k2, USEP, n)))
+    out.append(("captured", "(define (make c) (lambda (self i) (if (= i 0) c (begin (set! c (+ c %d)) (self self (- i 1))))))"
+                            "%s(define lp (make 0))%s(lp lp %d)" % (k2, USEP, USEP, n)))
+    out.append(("begin-tail", "(define (loop i acc) (if (= i 0) acc (begin (+ i 1) (loop (- i 1) (+ acc %d)))))%s(loop %d 0)"
+                % (k2, USEP, n)))
+    out.append(("computed-callee", "(define (loop f g i) (if (<= i 0) %d ((if (< i 7) f g) g f (- i 1))))%s(loop loop loop %d)"
+                % (k2, USEP, n)))
+    out.append(("local-closure", "(define (loop i acc) (if (= i 0) acc (let ((k (lambda (a b) (loop a b)))) (k (- i 1) (+ acc %d)))))"
+                                 "%s(loop %d 0)" % (k2, USEP, n)))
+    out.append(("set-local", "(define (loop i acc) (if (= i 0) acc (begin (set! acc (+ acc %d)) (loop (- i 1) acc))))%s(loop %d 0)"
+                % (k2, USEP, n)))
+    return out
+
+
+def bump(d, k, n=1):
+    d[k] = d.get(k, 0) + n
+
+
+def bc_replay(ctx, stats, label, progs, cores=None, spec=None, feats=None, known=None, env=None):
+    """Real bytecode replay (and, with `cores`, the compiler output comparison and the five-way run)."""
+    st = stats.setdefault(label, {"programs": 0, "units": 0, "units_core_modelled": 0, "units_ext_modelled": 0,
+                                  "programs_fully_core_modelled": 0, "programs_fully_ext_modelled": 0,
+                                  "units_replayed_vs_real": 0, "model_timeouts": 0, "compile_error_units": 0,
+                                  "crashed": 0, "unmodelled_reasons": {}, "opcodes_seen": {},
+                                  "listing_identical": 0, "listing_compared": 0, "listing_diff_classes": {},
+                                  "five_way_units": 0, "five_way_programs_all_agree": 0,
+                                  "tail_only_check": {"programs_real_listing_accepted": 0,
+                                                      "programs_model_code_accepted": 0,
+                                                      "model_accepted_real_rejected": 0}})
+    st["tail_only_rejected"] = st.get("tail_only_rejected", [])
+    known = known or {}
+    real = run_real_bc(progs, env=env)
+    model = run_model_bc(real, cores)
+    for i, (p, rch, m) in enumerate(zip(progs, real, model)):
+        st["programs"] += 1
+        if rch is None or m is None:
+            st["crashed"] += 1
+            continue
+        r = parse_bc_real(rch)
+        full_core, full_ext, all_agree = True, True, cores is not None
+        to_real = all(mu.get("TO", "").startswith("real=accept") for mu in m) and len(m) == len(r["units"]) and m
+        to_model = all(mu.get("TO", "").endswith("model=accept") for mu in m) and m
+        if to_real:
+            st["tail_only_check"]["programs_real_listing_accepted"] += 1
+        if to_model:
+            st["tail_only_check"]["programs_model_code_accepted"] += 1
+        if (to_model or label == "tailonly") and not to_real and all(
+                not mu.get("TO", "real=-").startswith("real=-") for mu in m):
+            st["tail_only_check"]["model_accepted_real_rejected"] += 1
+            st["tail_only_rejected"].append(i)
+        for ui, (ru, mu) in enumerate(zip(r["units"], m)):
+            st["units"] += 1
+            for kv in mu.get("OPS", "").split(","):
+                if "=" in kv:
+                    bump(st["opcodes_seen"], kv.split("=")[0], int(kv.split("=")[1]))
+            if ru["res"] is None:
+                full_core = full_ext = all_agree = False
+                continue
+            rres = canon_real(*ru["res"])
+            if not [l for l in ru["listing"] if l.strip()] and rres[0] == "err":
+                st["compile_error_units"] += 1      # rejected by the compiler: nothing was executed
+                full_core = full_ext = False
+                continue
+            lst = mu.get("L", "")
+            outcomes = {"real": rres}
+            if lst.startswith("ok"):
+                st["units_core_modelled"] += 1
+                outcomes["RV"] = canon_model(mu.get("RV", "-"))
+            else:
+                full_core = False
+                for reason in lst.split(" ", 1)[-1].split(","):
+                    if lst.startswith("unmodelled"):
+                        bump(st["unmodelled_reasons"], reason)
+            xv = mu.get("XV", "-")
+            if xv.startswith(("ok", "err", "timeout")):
+                st["units_ext_modelled"] += 1
+                outcomes["XV"] = canon_model(xv)
+            else:
+                full_ext = False
+            if cores is not None:
+                for tag in ("SE", "MV"):
+                    if tag in mu:
+                        outcomes[tag] = canon_model(mu[tag])
+                cmp_ = mu.get("CMP", "-")
+                if cmp_ != "-":
+                    st["listing_compared"] += 1
+                    if cmp_.startswith("identical"):
+                        st["listing_identical"] += 1
+                    else:
+                        bump(st["listing_diff_classes"], cmp_.replace("diff ", ""))
+            if any(o[0] == "timeout" for o in outcomes.values()):
+                st["model_timeouts"] += 1
+                all_agree = False
+                break
+            ran = {k: o for k, o in outcomes.items() if o[0] in ("ok", "err")}
+            if len(ran) > 1:
+                st["units_replayed_vs_real"] += 1
+            if cores is not None and all(k in ran for k in ("real", "RV", "SE", "MV")):
+                st["five_way_units"] += 1
+            else:
+                all_agree = False
+            names = sorted(ran)
+            differ = [(a, b) for ai, a in enumerate(names) for b in names[ai + 1:] if ran[a] != ran[b]]
+            if differ:
+                all_agree = False
+                stats["disagreements_checked"] += 1
+                text = ("# %s: outcomes of unit %d differ: %s\n%s\n# program (units separated by ;;;---)\n%s\n"
+                        "# real listing of the unit\n%s\n" % (
+                            label, ui, ", ".join("%s!=%s" % d for d in differ),
+                            "\n".join("#   %-4s %s" % (k, ran[k]) for k in names), p, "\n".join(ru["listing"])))
+                if cores is not None:
+                    text += "# Core terms of the unit\n" + "\n".join(cores[i][ui]) + "\n"
+                # a difference that disappears without the native tier belongs to K01j (C02 decides those)
+                involves_real = any("real" in d for d in differ)
+                model_sides = [ran[k] for k in names if k != "real"]
+                if involves_real and all(x == model_sides[0] for x in model_sides) and "K01j" in known:
+                    r2 = run_real_bc([p], env={"STEEL_JIT": "false"})[0]
+                    if r2 is not None:
+                        u2 = parse_bc_real(r2)["units"]
+                        if ui < len(u2) and u2[ui]["res"] and canon_real(*u2[ui]["res"]) == model_sides[0]:
+                            ctx.known_finding("id=K01j " + known["K01j"])
+                            bump(stats["known_hits"], "K01j")
+                            break
+                # K01d / K01f: an assigned variable is read without unboxing; the box itself shows up as a value
+                # ('#&…) in the real outcome, the model VM on the REAL listing reproduces it (RV = real), the
+                # semantics and the model compiler do not
+                sig = ru["res"][1]
+                if (feats is not None and feats[i] & {"boxed-let", "boxed-param", "set-let", "set-param"}
+                        and "K01d" in known and involves_real and "'#&" in sig
+                        and ran.get("RV") == ran.get("real") and ran.get("SE") == ran.get("MV")):
+                    ctx.known_finding("id=K01d " + known["K01d"])
+                    bump(stats["known_hits"], "K01d")
+                    break
+                ctx.violation("C01-%s-%d.txt" % (label, i), text)
+                break
+            if rres[0] != "ok":
+                break
+        else:
+            pass
+        if full_core and r["units"]:
+            st["programs_fully_core_modelled"] += 1
+        if full_ext and r["units"]:
+            st["programs_fully_ext_modelled"] += 1
+        if all_agree and spec is not None and spec[i] is not None:
+            # fifth party: the reference evaluator S on the source
+            fin = r["final"]
+            if fin is not None and fin[0] == "ok":
+                rv = [canon_val(v) for v in fin[1].split("\x1f") if v and v != "#<void>"]
+                sv = [canon_val(v) for v in spec[i]["res"][1]] if spec[i]["res"][0] == "ok" else None
+                if sv is not None and sv != rv:
+                    all_agree = False
+                    stats["disagreements_checked"] += 1
+                    ctx.violation("C01-%s-S-%d.txt" % (label, i),
+                                  "# %s: evalC = model VM = real VM, but the reference evaluator S differs\n%s\n"
+                                  "# real/model: %s\n# S: %s\n" % (label, p, rv, sv))
+            elif fin is not None and fin[0] == "err" and spec[i]["res"][0] == "ok":
+                all_agree = False
+                stats["disagreements_checked"] += 1
+                ctx.violation("C01-%s-S-%d.txt" % (label, i),
+                              "# %s: real and model raise, the reference evaluator S does not\n%s\n# real: %s\n# S: %s\n"
+                              % (label, p, fin, spec[i]["res"]))
+        if all_agree:
+            st["five_way_programs_all_agree"] += 1
+        if len(ctx.violations) >= 8:
+            break
+    return st
+
+
 def run(ctx):
     stats = {"programs": 0, "disagreements_checked": 0, "seen": set(), "features": {}, "samples": [],
              "frag": 0, "frag_model_mismatch": 0, "known_hits": {}, "outcomes": {"ok": 0, "err": 0}}
     known = {k["id"]: k["text"].split(" ", 5)[-1] for k in ctx.load_known() if "id" in k}
+    # translate: the op-code tables of the tie are regenerated from /repo
+    trc, tout = C.sh(["python3", os.path.join(C.VERIF, "translate", "c01_opcodes.py")], timeout=120)
+    try:
+        tinfo = json.loads(tout.strip().splitlines()[-1])
+    except Exception:
+        tinfo = {"error": tout[-500:]}
     pr = C.prove(ctx, "C01", ["c01driver"])
     ok, log = C.build_harness(ctx, ["c01"])
     if not ok or not os.path.exists(C.driver_path("c01driver")):
@@ -182,6 +525,9 @@ def run(ctx):
                         "checker_cmd": "lake build SteelVerif.C01.Props", "trusted_base": C.TRUSTED_BASE}
         return ctx.finish()
     rng = random.Random(ctx.seed)
+    if trc != 0 or "error" in tinfo:
+        ctx.violation("C01-translator.txt", "translate/c01_opcodes.py no longer parses the sources:\n" + tout[-2000:],
+                      no_input=True)
 
     # (a) corpus + whole programs
     corpus = []
@@ -291,6 +637,85 @@ def run(ctx):
         if len(ctx.violations) >= 8:
             break
 
+    # (c) REAL BYTECODE REPLAY of the whole programs: the listing of every top-level unit (what the real VM is about to
+    # execute) read into `List C01C.Instr` and run by `C01C.run`; outside the modelled set: counted per reason
+    tie = {}
+    rng2 = random.Random(ctx.seed + 101)
+    nwhole = len(corpus) + (100 if ctx.quick() else 800)
+    if len(ctx.violations) < 8:
+        bc_replay(ctx, stats, "whole", progs[:nwhole], known=known)
+    # (d) programs INSIDE the core language, emitted as source + lowered Core term: compiler output comparison
+    # (`compileTop e` vs the real listing) and the five-way run evalC / model compiler+VM / model VM on the real
+    # listing / real engine / S
+    if len(ctx.violations) < 8:
+        ncore = 260 if ctx.quick() else 3000
+        cps = [gen_core_program(rng2) for _ in range(ncore)]
+        ctexts = [USEP.join("\n".join(u) for u in p["units"]) for p in cps]
+        cspec, crc = run_spec(["\n".join("\n".join(u) for u in p["units"]) for p in cps])
+        cspec = cspec + [None] * (len(cps) - len(cspec))
+        bc_replay(ctx, stats, "core", ctexts, cores=[p["cores"] for p in cps], spec=cspec,
+                  feats=[p["feats"] for p in cps], known=known)
+        cf = {}
+        for p in cps:
+            for x in p["feats"]:
+                bump(cf, x)
+        stats["core"]["generator_features"] = cf
+        stats["core"]["sample"] = {"source_units": cps[0]["units"][:3], "core_terms": cps[0]["cores"][:3]}
+    # (e) tail-only loop shapes: the static check C09.tailOnlyB on the REAL listing (accepted => the frame bound of
+    # C09.core_loop_constant_space is a theorem about this listing); a rejected one = a tail call not compiled as one
+    if len(ctx.violations) < 8:
+        fam = []
+        for _ in range(2 if ctx.quick() else 12):
+            fam += tail_only_family(rng2)
+        st = bc_replay(ctx, stats, "tailonly", [f[1] for f in fam], known=known)
+        st["shapes"] = sorted(set(f[0] for f in fam))
+    for label in ("core", "tailonly"):
+        st = stats.get(label)
+        for i in (st or {}).get("tail_only_rejected", [])[:3]:
+            stats["disagreements_checked"] += 1
+            src_ = (fam[i][1] if label == "tailonly" else ctexts[i])
+            ctx.violation("C01-%s-tailcall-%d.txt" % (label, i),
+                          "# every call of a non-primitive inside a procedure body of this program is in tail position "
+                          "(the tail-aware reference compiler's code passes C09.tailOnlyB), but the REAL listing is "
+                          "rejected by the checker: a tail call was not compiled as a tail call\n%s\n" % src_)
+    # (f) open finding K01l (self tail call = TCOJMP keeps calling the OLD closure after the procedure's own name was
+    # assigned): directed family, real vs S; runs once the finding is listed (before that the replay file is the witness)
+    if "K01l" in known and len(ctx.violations) < 8:
+        fam2 = []
+        for sep in ("\n", USEP):
+            for k2 in (1, 2):
+                ps_ = " ".join("a%d" % j for j in range(k2))
+                fam2.append(sep.join([
+                    "(define (lp n %s) (if (= n 0) (+ 100 n) (lp (- n 1) %s)))" % (ps_, ps_),
+                    "(define keep lp)", "(set! lp (lambda (n %s) 999))" % ps_,
+                    "(keep 3 %s)" % " ".join("1" for _ in range(k2))]))
+        fr = run_real([p.replace(USEP, "\n") for p in fam2])
+        fs_, _ = run_spec([p.replace(USEP, "\n") for p in fam2])
+        for p, r, m in zip(fam2, fr, fs_):
+            stats["programs"] += 1
+            if not same(r, m):
+                stats["disagreements_checked"] += 1
+                if r["res"][0] == "ok" and r["res"][1][-1:] == ["100"] and m["res"][1][-1:] == ["999"]:
+                    ctx.known_finding("id=K01l " + known["K01l"])
+                    bump(stats["known_hits"], "K01l")
+                else:
+                    ctx.violation("C01-selftail-set.txt", "# %s\n# real %s\n# S %s\n" % (p, r["res"], m["res"]))
+    # which real op codes appeared in listings of this run, and which of them the model has
+    seen = {}
+    for label in ("whole", "core", "tailonly"):
+        for k, v in stats.get(label, {}).get("opcodes_seen", {}).items():
+            bump(seen, k, v)
+    tie["real_opcodes_in_enum"] = tinfo.get("opcodes")
+    tie["real_opcodes_with_dispatch_arm"] = tinfo.get("dispatch_arms")
+    tie["opcodes_seen_in_listings"] = len(seen)
+    tie["opcodes_seen_and_modelled"] = sorted(k for k in seen if k in MODELLED_OPS)
+    tie["opcodes_seen_not_modelled"] = {k: v for k, v in seen.items() if k not in MODELLED_OPS}
+    for label in ("whole", "core", "tailonly"):
+        st = stats.get(label)
+        if st:
+            st.pop("opcodes_seen", None)
+            tie[label] = st
+
     if not pr["ok"] and not ctx.violations:
         ctx.violation("C01-proof-broken.txt", "proof obligations of SteelVerif.C01.Props that no longer check:\n" +
                       "\n".join("%s: %s" % f for f in pr["failed"]) + "\n", no_input=True)
@@ -304,6 +729,7 @@ def run(ctx):
         "samples": stats["samples"], "feature_counts": stats["features"], "spec_outcomes": stats["outcomes"],
         "fragment_programs": stats["frag"], "module_mode_programs": stats.get("module_programs", 0), "fragment_model_vs_vm_mismatches": stats["frag_model_mismatch"],
         "known_finding_hits": stats["known_hits"], "axioms": pr.get("axioms", {}),
+        "tie_core_model_to_repo": tie,
         "proof_failures": ["%s: %s" % f for f in pr["failed"]],
     }
     return ctx.finish("proof")
